@@ -582,6 +582,7 @@ func (p *forRangeStmt) RangeAssignThen(cb *CodeBuilder, pos token.Pos) {
 }
 
 func (p *forRangeStmt) getKeyValTypes(cb *CodeBuilder, typ types.Type) []types.Type {
+	orig := typ
 retry:
 	switch t := types.Unalias(typ).(type) {
 	case *types.Slice:
@@ -614,7 +615,7 @@ retry:
 			if (t.Info() & types.IsUntyped) != 0 {
 				return []types.Type{types.Typ[types.Int], nil}
 			}
-			return []types.Type{t, nil}
+			return []types.Type{orig, nil}
 		}
 	case *types.Signature:
 		// Go 1.23 range over function types:
